@@ -22,9 +22,11 @@ from common import (BUILD, CACHE, NCPU, SEED, SPEC, MachineryError, Verdict,
 MODELS_JSON = os.path.join(BUILD, 'models.json')
 
 C02_MODELS = {'scalars', 'collections', 'plain', 'extra', 'dashed',
-              'dashed_sav', 'enum_str', 'hier', 'hooks', 'ambig', 'seasoned'}
-C03_MODELS = {'hier', 'discrim', 'ambig', 'enum_str', 'plain', 'multi'}
-C10_MODELS = {'hooks', 'dashed_sav', 'adversarial', 'parsed', 'mixin'}
+              'dashed_sav', 'enum_str', 'hier', 'hooks', 'ambig', 'optreq',
+              'chain', 'absmix', 'unk', 'mixin', 'nested'}
+C03_MODELS = {'hier', 'discrim', 'ambig', 'enum_str', 'plain', 'multi',
+              'chain', 'absmix', 'mixin'}
+C10_MODELS = {'hooks', 'dashed_sav', 'adversarial', 'parsed', 'mixin', 'multi'}
 C17_STRONG = {'plain', 'extra', 'dashed_sav', 'enum_str', 'collections',
               'scalars'}
 
@@ -582,7 +584,12 @@ def replay_one(pid, path):
     with open(path) as f:
         rec = json.load(f)
     c = rec['case']['case']
-    write_models()
+    if rec['case'].get('pid') == 'C17S':
+        import dumpcheck
+        write_models(dumpcheck.live_dimplicit())
+        pid = 'C17S'
+    else:
+        write_models()
     res, _ = RELS[pid](c)
     for kind, detail, fid in res:
         print('%s: %s%s' % (kind, detail, ' [known %s]' % fid if fid else ''))
@@ -641,3 +648,191 @@ def run(pid, tier, replay=None, extra=None):
 
 def replay_cases(V, pid, cases):
     replay(V, pid, cases)
+
+
+# ------------------------------------------------ C17: the strong claim -----
+STRONG_MODELS = {'nested', 'plain', 'enum_str', 'optreq'}
+
+
+def typed_positions(b, doc, dt):
+    """Walk a VALID alias-free document along the declared type.  Yields
+    dicts: node, type (resolved leaf), key (key node id or 0), parent (id of
+    the enclosing mapping / sequence or 0), cls (class of the parent
+    mapping or None), name."""
+    h = doc['h']
+    out = []
+
+    def resolve(t, n):
+        """leaf type a valid node was loaded as"""
+        if t[0] == 'union':
+            nd = h[n - 1]
+            for m in t[1]:
+                r = resolve(m, n)
+                if r is None:
+                    continue
+                k = r[0]
+                if k == 'null' and nd['k'] == 's' and nd['t'] == 'null':
+                    return r
+                if k in ('str', 'int', 'float', 'bool') and nd['k'] == 's' \
+                        and nd['t'] == k:
+                    return r
+                if k == 'list' and nd['k'] == 'q':
+                    return r
+                if k == 'dict' and nd['k'] == 'm':
+                    return r
+                if k == 'class':
+                    kind = b.byname[r[1]]['kind']
+                    if kind == 'plain' and nd['k'] == 'm':
+                        return r
+                    if kind != 'plain' and nd['k'] == 's' and \
+                            nd['t'] == 'str':
+                        return r
+            return None
+        return t
+
+    def walk(n, t, key, parent, cls, name):
+        r = resolve(t, n)
+        out.append({'node': n, 'type': r, 'decl': t, 'key': key,
+                    'parent': parent, 'cls': cls, 'name': name})
+        if r is None:
+            return
+        nd = h[n - 1]
+        if r[0] == 'list' and nd['k'] == 'q':
+            for c in nd['c']:
+                walk(c, r[1], 0, n, None, None)
+        elif r[0] == 'dict' and nd['k'] == 'm':
+            for j in range(0, len(nd['c']), 2):
+                walk(nd['c'][j + 1], r[2], nd['c'][j], n, None, None)
+        elif r[0] == 'class' and nd['k'] == 'm':
+            c = b.byname[r[1]]
+            ptypes = {p['name']: p['type'] for p in c['params']}
+            for j in range(0, len(nd['c']), 2):
+                kn = h[nd['c'][j] - 1]
+                if kn['v'] in ptypes:
+                    walk(nd['c'][j + 1], ptypes[kn['v']], nd['c'][j], n,
+                         r[1], kn['v'])
+    walk(doc['r'], dt, 0, 0, None, None)
+    return out
+
+
+def corruptions(b, doc, dt):
+    """Single-point corruptions with their site.  Each: (kind, new doc,
+    site node ids whose lines are acceptable, key name to be named or None)"""
+    import copy
+    res = []
+    pos = typed_positions(b, doc, dt)
+    h = doc['h']
+    for p in pos:
+        n, r = p['node'], p['type']
+        if r is None:
+            continue
+        nd = h[n - 1]
+        sites = [x for x in (n, p['key'], p['parent']) if x]
+        if r[0] in ('int', 'str', 'float', 'bool') and nd['k'] == 's' and \
+                p['decl'][0] != 'union' and p['decl'][0] != 'any':
+            d = copy.deepcopy(doc)
+            if r[0] == 'str':
+                d['h'][n - 1].update(t='int', v='42')
+            else:
+                d['h'][n - 1].update(t='str', v='abc')
+            res.append(('wrong scalar type', d, sites, None))
+        if r[0] == 'class' and b.byname[r[1]]['kind'] == 'enum' and \
+                p['decl'][0] != 'union':
+            d = copy.deepcopy(doc)
+            d['h'][n - 1].update(t='str', v='zz')
+            res.append(('unknown enum member', d, sites, None))
+        if r[0] == 'class' and b.byname[r[1]]['kind'] == 'plain' and \
+                nd['k'] == 'm':
+            c = b.byname[r[1]]
+            msites = [x for x in (n, p['key'], p['parent']) if x]
+            for j in range(0, len(nd['c']), 2):
+                kid = nd['c'][j]
+                kname = h[kid - 1]['v']
+                prm = [q for q in c['params'] if q['name'] == kname]
+                if prm and prm[0]['required']:
+                    d = copy.deepcopy(doc)
+                    d['h'][n - 1]['c'] = nd['c'][:j] + nd['c'][j + 2:]
+                    res.append(('dropped required key', d, msites, kname))
+                    d = copy.deepcopy(doc)
+                    d['h'][kid - 1]['v'] = kname + 'x'
+                    res.append(('misspelt key', d, msites + [kid], None))
+            if not c['extra']:
+                d = copy.deepcopy(doc)
+                d['h'].append({'k': 's', 't': 'str', 'v': 'zzz', 'c': []})
+                d['h'].append({'k': 's', 't': 'int', 'v': '42', 'c': []})
+                d['h'][n - 1]['c'] = nd['c'] + [len(d['h']) - 1, len(d['h'])]
+                res.append(('added key', d, msites + [len(d['h']) - 1], 'zzz'))
+    return res
+
+
+def rel_c17_strong(c):
+    ctx = loadreplay.ctx()
+    b = loadreplay.built(c['model'])
+    out = []
+    n = 0
+    doc = c['doc']
+    if render.expand(doc) is None or c.get('nreuse', 0):
+        return out, 0
+    base = loadreplay.observe(c, style='block')
+    if base['outcome'] != 'VAL':
+        return out, 0           # not a valid document to start from
+    for kind, d, sites, keyname in corruptions(b, doc, c['dt']):
+        cc = dict(c)
+        cc['doc'] = d
+        o = loadreplay.observe(cc, style='block')
+        n += 1
+        if o['outcome'] != 'ERR':
+            continue            # the corruption happens to be valid: no claim
+        if o['errclass'] != 'RecErr':
+            continue            # C08's business
+        lines = o['lines']
+        ok_lines = {lines.get(s) for s in sites if lines.get(s)}
+        cited = {ln for ln, _ in o['cited']}
+        what = '%s in %r as %s' % (kind, o['text'], json.dumps(c['dt']))
+        if not cited:
+            out.append(('impl', '%s: the message cites no position: %r' % (
+                what, o['message'][:300]), None))
+        elif not (cited & ok_lines):
+            out.append(('impl', '%s: cites line(s) %s; the corrupted node, its '
+                        'key and the enclosing mapping are on line(s) %s: %r'
+                        % (what, sorted(cited), sorted(ok_lines),
+                           o['message'][:400]), None))
+        if keyname and keyname not in o['quoted']:
+            out.append(('impl', '%s: the message does not name key "%s": %r'
+                        % (what, keyname, o['message'][:400]), None))
+    return out, n
+
+
+RELS['C17S'] = rel_c17_strong
+
+
+def c17_strong(V, tier):
+    import dumpcheck
+    stats, cases = tlc_cases(
+        'MC_RoundTrip_q.cfg' if tier == 'quick' else 'MC_RoundTrip_t.cfg',
+        module='MC_RoundTrip', extra_files=('RoundTrip.tla',),
+        dimplicit=dumpcheck.live_dimplicit())
+    add_stats(V, stats)
+    cases = [c for c in cases if c['model'] in STRONG_MODELS
+             and c['res'][0] == 'VAL' and c['dex'] == ''
+             and isinstance(c['oh'], list)]
+    for c in cases:
+        c.setdefault('dev', {'alias': False})
+        c.setdefault('inv', {})
+    if not cases:
+        raise MachineryError('no valid documents for the strong claim')
+    import multiprocessing
+    _pid[0] = 'C17S'
+    chunks = chunked(cases, NCPU * 2)
+    with multiprocessing.get_context('fork').Pool(NCPU) as pool:
+        parts = pool.map(_chunk, chunks)
+    for cs, part in zip(chunks, parts):
+        for c, (res, n) in zip(cs, part):
+            V.replayed += 1
+            V.evaluations += n
+            for kind, detail, fid in res:
+                if kind == 'machinery':
+                    raise MachineryError(detail)
+                V.violation({'pid': 'C17S', 'kind': kind, 'case': c}, detail,
+                            finding=fid)
+    V.notes['strong_claim_documents'] = len(cases)
